@@ -82,6 +82,8 @@ def generate(st):
         cfg['defaults']['expiry'] = enc(datetime.datetime.fromisoformat(cfg['origin']) + datetime.timedelta(days=sw.choice([-1000, -1000, 5000])))
     # renames = {parameter: column}: which column of a wider table feeds the parameter (documented option)
     cfg['renames'] = {sw.choice(names): 'src'} if sw.random() < 0.15 else None
+    cfg['wrap_f'] = sw.random() < 0.15
+    cfg['inspect_first'] = sw.random() < 0.3
     cfg['reenter'] = sw.random() < 0.25        # f itself uses lifted functions / join while it is being evaluated
     if cfg['bigkeys']:
         cfg['keys_int'] = True
@@ -435,7 +437,23 @@ def execute(trace, ctx=None):
     if renames:
         kwargs['renames'] = dict(renames)
     held = {}              # parameter -> (signature, the caller's long-lived wide table)
-    p = perdictable(f, **kwargs)
+    f_lifted = f
+    if cfg.get('wrap_f') and not dict_mode:
+        # the function handed over is itself one of the library's wrappers around f (same signature, same behaviour)
+        from pyg_base import kwargs_support
+        f_lifted = kwargs_support(f)
+        res.probe('lifted-function-is-a-library-wrapper')
+    p = perdictable(f_lifted, **kwargs)
+    if cfg.get('inspect_first'):
+        # somebody looks at the lifted function's signature before it is ever called
+        from pyg_base import getargspec as _gas
+        try:
+            _gas(p)
+            getattr(p, 'fullargspec', None)
+        except Exception as e:
+            res.violation = {'cls': 'unexpected-exception', 'msg': 'getargspec(lifted function) raised %s: %s' % (type(e).__name__, e), 'step': 0}
+            return res
+        res.probe('signature-inspected-before-first-call')
     # join defaults as the library documents them: explicit `defaults`, else f's own parameter defaults
     if cfg.get('defaults') is not None:
         jdefaults = dict(cfg['defaults'])
